@@ -30,6 +30,7 @@ pub fn gen_script(rng: &mut Rng, shape: Shape, timed: bool) -> Script {
         fail_up_front,
         reads_before: vec![],
         disable_compression: false,
+        after_err: if streaming_resp && rng.chance(1, 2) { rng.urange(1, 3) as u8 } else { 0 },
     }
 }
 
@@ -53,7 +54,7 @@ pub fn gen_call(rng: &mut Rng, id: String, shape: Shape, script: &mut Script) ->
 
 pub fn script_json(s: &Script) -> serde_json::Value {
     json!({"initial_md": meta_json(&s.initial_md), "msg_sizes": s.msgs.iter().map(|m| m.data.len()).collect::<Vec<_>>(), "end": s.end.as_ref().map(|e| e.json()),
-        "fail_up_front": s.fail_up_front, "reads_before": s.reads_before, "pend": s.pend})
+        "fail_up_front": s.fail_up_front, "reads_before": s.reads_before, "pend": s.pend, "stream_would_continue_after_error_with": s.after_err})
 }
 
 pub fn run(cfg: &RunCfg) -> Ctx {
@@ -74,14 +75,35 @@ pub fn run(cfg: &RunCfg) -> Ctx {
     all.floor("cfg.server_compresses", 20);
     all.floor("cfg.client_compresses", 20);
     all.floor("cfg.empty_message_under_compression", 3);
+    all.floor("cfg.response_reset_before_trailers", 20);
+    if !crate::ctx::small() {
+        all.floor("cfg.message_over_default_limit", 3);
+    }
     all
 }
 
 fn loop_case(rng: &mut Rng, ctx: &mut Ctx, idx: u64) {
     let shape = *rng.pick(&SHAPES);
     let mut script = gen_script(rng, shape, false);
-    let spec = gen_call(rng, format!("c{}", idx), shape, &mut script);
-    let max_piece = *rng.pick(&[1usize, 3, 7, 64, 4096, 1 << 20]);
+    let mut spec = gen_call(rng, format!("c{}", idx), shape, &mut script);
+    let mut max_piece = *rng.pick(&[1usize, 3, 7, 64, 4096, 1 << 20]);
+    // a few calls carry a message above the 4 MiB default receive limit, with the receiving side
+    // configured to take it; most of those go through a clone of the configured client
+    let big = !crate::ctx::small() && rng.chance(1, 700);
+    let mut big_resp = false;
+    if big {
+        max_piece = 1 << 20;
+        let n = 4 * 1024 * 1024 + rng.urange(1, 3000);
+        if rng.bool() && !script.msgs.is_empty() && script.end.is_none() {
+            script.msgs[0].data = vec![0xb1; n];
+            big_resp = true;
+        } else if let Some(m) = spec.req_msgs.first_mut() {
+            m.data = vec![0xb2; n];
+        }
+        ctx.count("cfg.message_over_default_limit");
+    }
+    // the response stream is reset (CANCELLED body error) before its trailers: never a success
+    let reset_after = if !big && rng.chance(1, 12) { Some(rng.urange(0, 3)) } else { None };
     let case_json = json!({"shape": format!("{:?}", shape), "script": script_json(&script), "request_msgs": spec.req_msgs.len(), "request_meta": meta_json(&spec.req_meta), "max_piece": max_piece});
     let outcome = if script.end.is_some() { "err" } else { "ok" };
     ctx.begin(&format!("{:?}-{}", shape, outcome), case_json.clone());
@@ -111,7 +133,12 @@ fn loop_case(rng: &mut Rng, ctx: &mut Ctx, idx: u64) {
         server = server.send_compressed(e.tonic().unwrap());
         ctx.count("cfg.server_compresses");
     }
-    let lb = Loopback::new(server, rng.u64(), max_piece);
+    if big {
+        server = server.max_decoding_message_size(6 * 1024 * 1024);
+    }
+    let mut lb = Loopback::new(server, rng.u64(), max_piece);
+    lb.probe_after_end = true;
+    lb.reset_response_after = reset_after;
     let stats = lb.stats.clone();
     let mut client = VerifClient::new(lb);
     for e in crate::refc::Enc::compressed() {
@@ -123,6 +150,14 @@ fn loop_case(rng: &mut Rng, ctx: &mut Ctx, idx: u64) {
     }
     if script.msgs.iter().chain(spec.req_msgs.iter()).any(|m| m.data.is_empty() && m.seq == 0 && m.tag.is_empty()) && (c_send.is_some() || s_send.is_some()) {
         ctx.count("cfg.empty_message_under_compression");
+    }
+    if big {
+        client = client.max_decoding_message_size(6 * 1024 * 1024);
+        if rng.chance(2, 3) {
+            client = client.clone();
+            ctx.count("cfg.cloned_client");
+        }
+        let _ = big_resp;
     }
     let mut ex = Exec::new();
     let view = match ex.block_on(200_000, do_call(&mut client, &spec, None)) {
@@ -136,13 +171,35 @@ fn loop_case(rng: &mut Rng, ctx: &mut Ctx, idx: u64) {
             return;
         }
     };
+    use std::sync::atomic::Ordering::Relaxed;
+    if reset_after.is_some() {
+        // the handler's outcome never arrived: whatever was seen is a prefix and the call is an error
+        ctx.count("cfg.response_reset_before_trailers");
+        let want: Vec<Msg> = if streaming_resp { script.msgs.clone() } else { script.msgs.iter().take(1).cloned().collect() };
+        if !view.finished {
+            ctx.violation("call-open", "the call never completed after the response stream was reset".into());
+        } else if view.msgs.len() > want.len() || view.msgs.iter().zip(&want).any(|(a, b)| a != b) {
+            ctx.violation("messages-differ", format!("client saw {} messages that are not a prefix of the handler's {}", view.msgs.len(), want.len()));
+        }
+        // trailers-only responses carry their status in the head: the reset changes nothing there
+        let trailers_only = script.end.is_some() && (!streaming_resp || script.fail_up_front);
+        let ended_ok = view.call_err.is_none() && matches!(view.end, Some(Ok(())));
+        if view.finished && ended_ok && !trailers_only {
+            ctx.violation("success-without-outcome", format!("the response stream was reset after {} DATA frame(s), before any status arrived, and the client reports success ({} messages)", reset_after.unwrap(), view.msgs.len()));
+        }
+        ctx.fingerprint(format!("loop|{:?}|reset{}", shape, reset_after.unwrap()), true);
+        ctx.sample(case_json);
+        return;
+    }
     for (d, what) in judge_call(shape, &script, &view) {
         ctx.violation(&d, what);
     }
     for (d, what) in judge_request(&spec, &script, &handler.log(&spec.id)) {
         ctx.violation(&d, what);
     }
-    use std::sync::atomic::Ordering::Relaxed;
+    if stats.after_end_frames.load(Relaxed) > 0 {
+        ctx.violation("frames-after-outcome", format!("{} frame(s) came out of a body after its trailers / after its end (the handler's stream would have continued after its error with {} item(s))", stats.after_end_frames.load(Relaxed), script.after_err));
+    }
     ctx.add("transport.splits", stats.splits.load(Relaxed));
     ctx.add("transport.merges", stats.merges.load(Relaxed));
     ctx.add("transport.pendings", stats.pendings.load(Relaxed));
